@@ -34,6 +34,18 @@ def encChars (o : Option (List Char)) : String :=
   | some cs => encStr (String.ofList cs)
   | none => "keyerror"
 
+def opOf (t : Tok) : Option Op := do
+  match ← t.list? with
+  | [Tok.int 0, sys] => pure (Op.system (← (← sys.list?).mapM selMolOf))
+  | [Tok.int 1, sel, m] => pure (Op.molecule ((← sel.nat?) != 0) (← molOf m))
+  | _ => none
+
+def encRes : Res → String
+  | .system (.ok s) => "ok " ++ encList (s.map fun p => encMol p.2)
+  | .system (.error e) => encErr e
+  | .molecule (.ok m) => "ok " ++ encMol m
+  | .molecule (.error e) => encErr e
+
 def handle (_ : Unit) (toks : List Tok) : Unit × String :=
   let r : Option String :=
     match toks with
@@ -63,6 +75,10 @@ def handle (_ : Unit) (toks : List Tok) : Unit × String :=
         match annotateSystemOld sys seq with
         | .ok s' => pure ("ok " ++ encList (s'.map fun p => encMol p.2))
         | .error e => pure (encErr e)
+    | [Tok.str "history", seq, ops] => do
+        let seq ← nats? seq
+        let ops ← (← ops.list?).mapM opOf
+        pure (" | ".intercalate ((runHistory { sequence := seq } ops).map encRes))
     | [Tok.str "convmol", m] => do
         let m ← molOf m
         match convertAnnotation C17Tables.ssCg C17Tables.patterns m with
